@@ -467,6 +467,10 @@ class HybridLoad:
                 month_load = self.monthly_cl[i] - self.monthly_hl[i] - month_peak_cl + month_peak_hl
                 month_rate = month_load / month_duration
                 peak_day_diff = self.monthly_peak_cl_day[i] - self.monthly_peak_hl_day[i]
+                if peak_day_diff == 0 and not (self.monthly_peak_cl[i] > 0 and self.monthly_peak_hl[i] > 0):
+                    # at most one peak this month (the day of an absent peak defaults to 0), so there is
+                    # nothing to keep apart: place it like the peaks that do not share a day
+                    peak_day_diff = -1
                 # Place the peaks roughly midway through the day they occur on.
                 # (In JDS's opinion, this should be amply accurate for the
                 # hybrid time step.)
